@@ -27,9 +27,9 @@ IsOlc == Hdr.db = "olc"
 \*   C10 - statistics, memory accounting and allocator bytes.
 \* insert/remove results are always enforced (they synchronise the state).
 Mode == IF "MODE" \in DOMAIN IOEnv THEN IOEnv.MODE ELSE "all"
-CheckPoint == Mode \in {"all", "C01"}
-CheckScans == Mode \in {"all", "C02"}
-CheckStats == Mode \in {"all", "C10"}
+CheckPoint == Mode \in {"all", "C01", "C08", "C16"}
+CheckScans == Mode \in {"all", "C02", "C08", "C16"}
+CheckStats == Mode \in {"all", "C10", "C08", "C16"}
 
 tvars == <<vars, l, views>>
 Ev == JTrace[l]
@@ -54,6 +54,12 @@ CovNames == <<"InsDup", "InsEmpty", "InsLeafSplit", "InsPrefixSplit", "InsAdd", 
              "RemShrink", "RemChild", "GetHit", "GetMiss", "Clear", "Recheck",
              "ScanAll", "ScanFrom", "ScanRange", "ScanHalted", "ScanEmpty", "Reset", "Fail">>
 CovIdx(name) == 100 + (CHOOSE i \in 1..Len(CovNames) : CovNames[i] = name)
+\* fault points that actually threw, per (structural case, index of the failed allocation)
+FaultCases == <<"InsEmpty", "InsLeafSplit", "InsPrefixSplit", "InsAdd", "InsGrow", "InsDup",
+                "RemRootLeaf", "RemCollapseInnerSibling", "RemCollapseLeafSibling", "RemShrink", "RemChild", "RemAbsent",
+                "length_error_value", "length_error_key">>
+FaultIdx(c, n) == 300 + 8 * (CHOOSE i \in 1..Len(FaultCases) : FaultCases[i] = c) + (IF n < 7 THEN n ELSE 7)
+FaultCov(c, n) == TLCSet(FaultIdx(c, n), TLCGet(FaultIdx(c, n)) + 1)
 Cov(name) == TLCSet(CovIdx(name), TLCGet(CovIdx(name)) + 1)
 
 TInsert ==
@@ -127,7 +133,12 @@ TScan ==
 TFail ==
   /\ Ev.e = "fail"
   /\ Fail
+  \* "nothing leaked" is judged by the allocator registry: the dump that follows must
+  \* show held = MemUse, and held = 0 once the index is destroyed (hb/ha are informative)
   /\ Cov("Fail")
+  /\ LET c == IF Ev.what # "bad_alloc" THEN Ev.what
+              ELSE IF Ev.op = "ins" THEN InsCase(Ev.k) ELSE RemCase(Ev.k)
+     IN FaultCov(c, Ev.n)
   /\ UNCHANGED views
 
 \* full dump of the observable state: entries, both full scans, statistics
@@ -142,7 +153,7 @@ TDump ==
        /\ ScanOK(Ev.keys, "all", <<>>, <<>>, TRUE, 0)
        /\ ScanOK(Ev.rkeys, "all", <<>>, <<>>, FALSE, 0)
   /\ StatsOK(Ev)
-  /\ ("locks_free" \in DOMAIN Ev) => Ev.locks_free
+  /\ ("gets" \in DOMAIN Ev) => Ev.gets      \* every stored key is still found by a point lookup
   /\ UNCHANGED views
 
 \* the index is destroyed (everything has been returned to the allocator) and a
@@ -158,6 +169,7 @@ TNext ==
 
 TInit == /\ Init /\ l = 2 /\ views = <<>>
          /\ \A i \in 1..Len(CovNames) : TLCSet(100 + i, 0)
+         /\ \A i \in 300..(300 + 8 * (Len(FaultCases) + 1)) : TLCSet(i, 0)
 
 TSpec == TInit /\ [][TNext]_tvars
 
@@ -166,5 +178,6 @@ ShapeCanonicalSmall == (CheckStats /\ Cardinality(DOMAIN map) <= 10) => ShapeCan
 
 TraceAccepted ==
   /\ PrintT(<<"COV", [i \in 1..Len(CovNames) |-> <<CovNames[i], TLCGet(100 + i)>>]>>)
+  /\ PrintT(<<"FAULTCOV", {<<FaultCases[i], n, TLCGet(300 + 8 * i + n)>> : i \in 1..Len(FaultCases), n \in 0..7}>>)
   /\ TLCGet("stats").diameter = Len(JTrace)
 =============================================================================
